@@ -14,6 +14,7 @@ import AiuVerif.Lemmas.OverlapSort
 import AiuVerif.Lemmas.OverlapLanes
 import AiuVerif.Lemmas.OverlapRound
 import AiuVerif.Lemmas.OverlapFuel
+import AiuVerif.Lemmas.OverlapMoved
 
 namespace AiuVerif.C04
 open AiuVerif.Overlap
@@ -144,8 +145,8 @@ theorem lanes_not_merged (evs out : List Ev) (h : pipeline .tid evs = .ok out) :
   rename_i st' out' hd
   injection h with h; subst h
   intro p hp q hq hxp hxq hpid htid
-  obtain ⟨hp1, _, hp3⟩ := detectAll_tid_zip _ _ _ _ _ _ hd p hp
-  obtain ⟨hq1, _, hq3⟩ := detectAll_tid_zip _ _ _ _ _ _ hd q hq
+  obtain ⟨hp1, _, hp3, _⟩ := detectAll_tid_zip _ _ _ _ _ _ hd p hp
+  obtain ⟨hq1, _, hq3, _⟩ := detectAll_tid_zip _ _ _ _ _ _ hd q hq
   have hpq : p.1.pid = q.1.pid := by rw [← hp1, ← hq1, hpid]
   refine ⟨hpq, ?_⟩
   have hmp := seenOf_foldl_mem (sortStage evs) [] p.1 (List.of_mem_zip hp).1 hxp
@@ -179,6 +180,85 @@ theorem no_assert (mode : Mode) (evs : List Ev) (hnn : ∀ e ∈ evs, 0 ≤ e.ts
       | drop => exact famDisj_nil _
   · cases h
 
+theorem exists_zip_of_mem_right {α β : Type} : ∀ (l : List α) (l' : List β), l.length = l'.length →
+    ∀ y ∈ l', ∃ x, (x, y) ∈ l.zip l'
+  | [], [], _, y, hy => by simp at hy
+  | [], _ :: _, h, _, _ => by simp at h
+  | _ :: _, [], h, _, _ => by simp at h
+  | a :: l, b :: l', h, y, hy => by
+    rcases List.mem_cons.mp hy with hy | hy
+    · subst hy; exact ⟨a, by simp⟩
+    · obtain ⟨x, hx⟩ := exists_zip_of_mem_right l l' (by simpa using h) y hy
+      exact ⟨x, by simp [hx]⟩
+
+/-- **Clause 2, "the offending slice" (-O tid moves only offending slices).** Take any slice `b` of
+the sorted input (`sortStage evs = pre ++ b :: post`); the output has an element at the same
+position, and if its tid differs from `b`'s then `b` is offending: an earlier slice `a` of the
+*same input lane* partially overlaps it (not disjoint, not nested, w.r.t. the rounded ends).
+Uses: lane stacks hold ends of emitted slices (`EndsFrom`), output lane ⇒ input lane
+(`owns_unique`), the `(ts, -dur)` tie-break of the sort, monotonicity of `round(·,4)`. -/
+theorem moved_only_if_offending (evs out pre post : List Ev) (b : Ev)
+    (h : pipeline .tid evs = .ok out) (hs : sortStage evs = pre ++ b :: post) (hx : b.isX = true) :
+    ∃ b', out[pre.length]? = some b' ∧
+      (b'.tid ≠ b.tid →
+        ∃ a ∈ pre, a.isX = true ∧ a.pid = b.pid ∧ a.tid = b.tid ∧ ¬ Laminar a b) := by
+  unfold pipeline at h
+  simp only [] at h
+  split at h
+  · cases h
+  rename_i st' out' hd
+  injection h with h; subst h
+  have hks := sortStage_keySorted evs
+  have hmem : ∀ e ∈ pre ++ b :: post, e ∈ sortStage evs := by rw [hs]; exact fun e he => he
+  generalize hnx : nextOf (buildSpaces maxTidStreams (sortStage evs)) = next at hd
+  generalize spaceSize (buildSpaces maxTidStreams (sortStage evs)) + 1 = fuel at hd
+  rw [hs] at hd hks
+  obtain ⟨st1, em, b', outpost, g1, g2, g3⟩ := moved_witness_stage next fuel pre b post _ _ hx hd
+  have hlen : pre.length = em.length := by
+    have := congrArg List.length (detectAll_tid_noTid next fuel pre _ _ _ g1)
+    simpa using this.symm
+  refine ⟨b', by rw [g2, hlen]; simp, ?_⟩
+  intro hne
+  obtain ⟨a', ha', k1, k2, k3, k4, k5⟩ := g3 hne
+  obtain ⟨a, hz⟩ := exists_zip_of_mem_right pre em hlen a' ha'
+  obtain ⟨z1, z2, z3, z4⟩ := detectAll_tid_zip next fuel pre _ _ _ g1 (a, a') hz
+  simp only [] at z1 z2 z3 z4
+  have hapre : a ∈ pre := (List.of_mem_zip hz).1
+  have hax : a.isX = true := by rw [← z2]; exact k1
+  have hpid : a.pid = b.pid := by
+    rw [← z1]; exact congrArg Prod.fst k2
+  have htid' : a'.tid = b.tid := congrArg Prod.snd k2
+  -- the slice met on b's lane came from b's input lane
+  have htid : a.tid = b.tid := by
+    have hma := seenOf_foldl_mem (sortStage evs) [] a (hmem a (List.mem_append_left _ hapre)) hax
+    have hmb := seenOf_foldl_mem (sortStage evs) [] b (hmem b (by simp)) hx
+    rw [← hpid] at hmb
+    have hn := nextOf_buildSpaces maxTidStreams (sortStage evs) a.pid
+    rw [hnx] at hn
+    have o1 := owns_reach hn (owns_self hma) z3
+    rw [htid'] at o1
+    exact owns_unique o1 (owns_self hmb)
+  refine ⟨a, hapre, hax, hpid, htid, ?_⟩
+  have hts : a'.ts = a.ts := by rw [z4]
+  have hend : a'.endOf = a.endOf := by rw [z4]; rfl
+  rw [hts] at k3
+  rw [hend] at k4 k5
+  -- equal starts are excluded by the (ts, -dur) order of the sort and monotone rounding
+  have hk : KeyOrd a b := by
+    have := (List.pairwise_append.mp hks).2.2 a hapre b (by simp)
+    exact this (by simp [Ev.lane, hpid, htid])
+  have hlt : a.ts < b.ts := by
+    rcases hk with hk | ⟨hk1, hk2⟩
+    · exact hk
+    · exfalso
+      have : b.endOf ≤ a.endOf := by
+        unfold Ev.endOf
+        apply rnd4_mono
+        rw [hk1]; grind
+      grind
+  unfold Laminar
+  grind
+
 /-- **Budget (-O tid): a lane owns at most `max_tid_streams` = 5 extra lanes.** For every input
 lane `(pid, T)` there is one list `c` of at most 5 tids such that every slice of that lane leaves
 the sub-pipeline on tid `T` or on a tid of `c` (and by `lanes_not_merged` nobody else uses them).
@@ -199,7 +279,7 @@ theorem lane_budget (evs out : List Ev) (h : pipeline .tid evs = .ok out) (pid T
   · obtain ⟨c, hlen, hc⟩ := owns_budget (n := maxTidStreams) hnd hT
     refine ⟨c, hlen, ?_⟩
     intro q hq hx hp ht
-    obtain ⟨_, _, hr⟩ := detectAll_tid_zip _ _ _ _ _ _ hd q hq
+    obtain ⟨_, _, hr, _⟩ := detectAll_tid_zip _ _ _ _ _ _ hd q hq
     rw [hp, ht] at hr
     exact hc _ (owns_reach (nextOf_buildSpaces maxTidStreams (sortStage evs) pid) (owns_self hT) hr)
   · refine ⟨[], by simp, ?_⟩
@@ -270,6 +350,13 @@ example : pipeline .tid [x 0 7 0 3, x 1 7 1 3, x 2 7 2 3, x 3 7 1 1]
 
 example : pipeline .drop [x 0 7 0 3, x 1 7 1 3, x 2 7 2 3, x 3 7 1 1]
     = .ok [x 0 7 0 3, x 3 7 1 1] := by decide +kernel
+
+/-- the decomposition hypothesis of `moved_only_if_offending` on the same input: `b` = uid 1 (moved
+to tid 8 above) comes after `pre` = [uid 0], which it partially overlaps -/
+example : sortStage [x 0 7 0 3, x 1 7 1 3, x 2 7 2 3, x 3 7 1 1]
+    = [x 0 7 0 3] ++ x 1 7 1 3 :: [x 3 7 1 1, x 2 7 2 3] := by decide +kernel
+
+example : ¬ Laminar (x 0 7 0 3) (x 1 7 1 3) := by unfold Laminar; decide +kernel
 
 /-- lanes 7 and 8 both exist in the input: the slice moved off lane 7 goes to 9 (8 is excluded),
 the one moved off lane 8 to 14 (9..13 belong to lane 7) -/
